@@ -149,6 +149,27 @@ def h_interp(ctx):
         ctx.check_eq('interp/name', list(name.encode('ascii')) if name else [], list(cells[o:end]))
 
 
+TEXTS = ['/lib/ld.so', '/opt/f\u00fcr/ld.so.1', '/\u30c4\u30fc\u30eb/ld', '\u00e9', 'a\u20acb\U0001f600c']
+
+
+def h_text(ctx):
+    """names are stored as UTF-8: the interpreter path and string-table strings with multi-byte characters come back as the same
+    text (ground instances; the symbolic harnesses cover 7-bit contents)"""
+    SEG = ctx.lib('elf.segments')
+    SEC = ctx.lib('elf.sections')
+    cfg = ctx.cfg
+    text = TEXTS[cfg['text']]
+    raw = list(text.encode('utf-8'))
+    pre = cfg.get('pre', 0)
+    image = [0x41] * pre + raw + [0] + [0x42] * 3
+    seg = SEG.InterpSegment({'p_type': 'PT_INTERP', 'p_offset': pre, 'p_filesz': len(raw) + 1}, ctx.stream(image))
+    ctx.outcome('ok')
+    ctx.check_eq('text/interp', seg.get_interp_name(), text)
+    elf = _Elf(ctx, ctx.stream(image), 64, True)
+    sec = SEC.StringTableSection(_shdr(sh_type='SHT_STRTAB', sh_offset=0, sh_size=len(image)), '.strtab', elf)
+    ctx.check_eq('text/strtab', sec.get_string(pre), text)
+
+
 # ------------------------------------------------------------------ H2.4 string table
 def h_strtab(ctx):
     cfg = ctx.cfg
@@ -290,6 +311,8 @@ HARNESSES = [
       desc='SHF_COMPRESSED: Elf_Chdr of fully symbolic bytes per class/order; data_size/data_alignment from the header; payload returned iff type is ZLIB and the '
            'declared size equals the inflated size (zlib modelled by contract), otherwise ELFCompressionError'),
     H('h2_3_segment', h_segment, lambda tier: [dict(n=12, maxsize=8)], expect=('ok',), desc='Segment.data(): exactly [p_offset, p_offset+p_filesz)'),
+    H('h2_3_text', h_text, lambda tier: [dict(text=t, pre=p) for t in range(len(TEXTS)) for p in (0, 5)], expect=('ok',), decoy=-1,
+      desc='UTF-8 names with 2-, 3- and 4-byte characters: interpreter path and string-table lookup return the same text (ground)'),
     H('h2_3_interp', h_interp, lambda tier: [dict(n=n) for n in (1, 3, 6)], expect=('ok', 'unterminated'),
       desc='InterpSegment.get_interp_name(): NUL-terminated string at the (symbolic) segment start, content symbolic'),
     H('h2_4_strtab', h_strtab, _strtab_instances, expect=('ok', 'unterminated'),
